@@ -7,14 +7,14 @@ PROP = {
                  'doubles bit for bit on every generated op (checked this run)',
                  'speeds are not -0.0 / NaN (is_sign_positive is modelled as 0 <= v)'],
  'blocks': ['sp'],
- 'namespaces': ['Altrios.Proofs.C13'],
+ 'namespaces': ['Altrios.Proofs.C13', 'Altrios.Proofs.C13Lit', 'Altrios.Proofs.SPLit'],
  'nontrivial_stats': ['sp.branch.', 'sp.route.set_applies', 'sp.route.set_gated_off'],
- 'proof_modules': ['C13'],
+ 'proof_modules': ['C13', 'C13Lit'],
  'required_theorems': ['Altrios.Proofs.C13.C13_insert_exact',
                        'Altrios.Proofs.C13.C13_insert_canonical',
                        'Altrios.Proofs.C13.C13_insert_pre',
                        'Altrios.Proofs.C13.C13_profile_exact',
-                       'Altrios.Proofs.C13.C13_profile_canonical'],
+                       'Altrios.Proofs.C13.C13_profile_canonical'] + ['Altrios.Proofs.C13Lit.C13_literal_eq_partial', 'Altrios.Proofs.C13Lit.C13_literal_eq_iff', 'Altrios.Proofs.C13Lit.C13_literal_eq_false', 'Altrios.Proofs.C13Lit.C13_insert_total_literal', 'Altrios.Proofs.C13Lit.C13_insert_exact_literal', 'Altrios.Proofs.C13Lit.C13_insert_canonical_literal', 'Altrios.Proofs.C13Lit.C02_insert_sound_literal', 'Altrios.Proofs.C13Lit.C02_insert_mono_literal', 'Altrios.Proofs.C13Lit.C13_profile_literal', 'Altrios.Proofs.C13Lit.C13_profile_literal_false', 'Altrios.Proofs.C13Lit.C13_profile_exact_literal', 'Altrios.Proofs.C13Lit.C02_profile_sound_literal', 'Altrios.Proofs.C13Lit.C02_route_literal', 'Altrios.Proofs.C13Lit.profileIdx_eq_of_pre'],
  'rule': 'as C02; the oracle additionally requires equality with the brute-force minimum at every breakpoint, midpoint '
          'and +-1 ulp neighbour, and canonicity of the stored vector'}
 
@@ -30,4 +30,5 @@ TEXT = {'design_ref': '§7.3',
          'and nowhere else (C13_insert_exact), keeps the stored vector canonical (C13_insert_canonical) and '
          're-establishes the contract (C13_insert_pre); by induction any sequence of restrictions yields exactly the '
          'tightest covering restriction (C13_profile_exact/canonical). Holds of the repaired insert_speed (fix: '
-         'ee87328); the pinned code lost the restoring point for a restriction strictly inside one interval.'}
+         'ee87328); the pinned code lost the restoring point for a restriction strictly inside one interval.'
+         ' The index-level transcription of the Rust loop (insertSpeedIdx: find start, insert, while-update with removals, restore point, final merge — the definition compared bit for bit with the code) is proved never to panic or err under the contract (C13_insert_total_literal), to be exact / sound under the contract alone (C13_insert_exact_literal, C02_insert_sound_literal) and EQUAL to the structural function exactly when no redundant point sits in the gap (C13_literal_eq_iff; always true of vectors built from [(0, vmax)], C13_profile_literal, C02_route_literal); the two statements that are false at full strength are kept with their witnesses (C13_literal_eq_false: a redundant stored point outside [start,end] is dropped; C13_profile_literal_false: stacked zero-length restrictions at the tail reach three points at one offset, the debug_assert of insert_speed).'}
